@@ -47,6 +47,9 @@ type RunConfig struct {
 	StarveOnly    bool    `json:"starve_only,omitempty"`
 	StaleForger   bool    `json:"stale_forger,omitempty"`
 	EventClock    bool    `json:"event_clock,omitempty"`
+	// the straggler pulls as often as anybody (it has a witness in every round) but
+	// never pushes and is rarely pulled from: its witnesses reach the others late
+	StragglerListens bool `json:"straggler_listens,omitempty"`
 	// persistent nodes may run with a backlog of undetermined events larger than their cache
 	BacklogOverCache bool    `json:"backlog_over_cache,omitempty"`
 	NilTx            bool    `json:"nil_tx"`
@@ -379,7 +382,7 @@ func (c *Cluster) genStep(g *genState) *Step {
 	strag := -1
 	if cfg.Straggler > 0 && cfg.Straggler <= len(c.nodes) {
 		strag = cfg.Straggler - 1
-		if a.idx == strag && !r.Bool(cfg.StragglerP) && len(alive) > 1 {
+		if a.idx == strag && !cfg.StragglerListens && !r.Bool(cfg.StragglerP) && len(alive) > 1 {
 			for a.idx == strag {
 				a = alive[r.Intn(len(alive))]
 			}
@@ -402,7 +405,7 @@ func (c *Cluster) genStep(g *genState) *Step {
 					}
 				}
 			}
-			if strag >= 0 && a.idx == strag && r.Bool(0.5) {
+			if strag >= 0 && a.idx == strag && (r.Bool(0.5) || cfg.StragglerListens) {
 				st.Kind = "pullonly"
 			}
 		}
